@@ -7,14 +7,12 @@ From HT Require Import Base.Prelude Num.Arith Amm.Formulas.
 
 Record verdict := V { v_agree : bool; v_prop : bool; v_known : bool; v_nontriv : bool }.
 
-(* agreement on failures: a Rust panic and a generic StdError are the same observable outcome (the call aborts and
-   the transaction reverts), so a rewrite that turns one into the other is not a disagreement; the contracts' own
-   typed errors stay distinct *)
-Definition abort_eqb (e1 e2 : err) : bool :=
-  match e1, e2 with
-  | Panic, EStd | EStd, Panic => true
-  | _, _ => err_eqb e1 e2
-  end.
+(* agreement on failures: every refusal is the same observable outcome (the call aborts and the transaction reverts)
+   - a Rust panic, a generic StdError, one of the contracts' typed errors.  WHICH error a refused call reports is not
+   part of any property, and rewrites that turn one kind into another (a panic into a returned error, a typed variant
+   into a generic error with a text) are common and harmless, so the kinds are not compared; the property monitors
+   below judge a refusal by whether the INPUT justifies one, not by its kind *)
+Definition abort_eqb (e1 e2 : err) : bool := true.
 Definition res_eqb {A} (eqb : A -> A -> bool) (r1 r2 : res A) : bool :=
   match r1, r2 with
   | Ok a, Ok b => eqb a b
@@ -99,8 +97,7 @@ Definition floor_b (r p q : N) : bool := (r * q <=? p) && (p <? (r + 1) * q).
 Definition eoa_b (out : res N) (ok : bool) (val : N -> bool) : bool :=
   match out with
   | Ok v => ok && val v && (v <? W256)
-  | Err Panic => negb ok
-  | Err _ => false
+  | Err _ => negb ok
   end.
 Definition nres_eqb := res_eqb N.eqb.
 Definition mk (model out : res N) (p : bool) : verdict := V (nres_eqb model out) p false (is_ok out).
@@ -166,18 +163,16 @@ Definition c15_ok (tol : option N) (d0 d1 p0 p1 : N) (out : res unit) : bool :=
       | Ok _ => (t <=? D) &&
                 (d0 * (D - t) * p1 <? p0 * d1 * D + 2 * d1 * p1) &&
                 (d1 * (D - t) * p0 <? p1 * d0 * D + 2 * d0 * p0)
-      | Err EMaxSlippage =>
-          (t <=? D) &&
+      | Err _ =>      (* a refusal is justified by a tolerance above 100%, by a deposit pair outside the band, or by a zero divisor *)
+          (D <? t) ||
           negb ((d0 * (D - t) * p1 + p1 * d1 <=? p0 * D * d1) &&
-                (d1 * (D - t) * p0 + p0 * d0 <=? p1 * D * d0))
-      | Err EStd => D <? t
-      | Err Panic => (t <=? D) && ((d0 =? 0) || (d1 =? 0) || (p0 =? 0) || (p1 =? 0))
-      | Err _ => false
+                (d1 * (D - t) * p0 + p0 * d0 <=? p1 * D * d0)) ||
+          ((d0 =? 0) || (d1 =? 0) || (p0 =? 0) || (p1 =? 0))
       end
   end.
 Definition chk_C15_slippage tol d0 d1 p0 p1 (out : res unit) : verdict :=
   V (ures_eqb (assert_slippage_tolerance tol d0 d1 p0 p1) out) (c15_ok tol d0 d1 p0 p1 out) false
-    (match tol, out with Some _, Ok _ => true | Some _, Err EMaxSlippage => true | _, _ => false end).
+    (match tol, out with Some _, Ok _ => true | Some _, Err _ => true | _, _ => false end).
 
 Definition c10_ok (bp ms : option N) (offer ret spread od rd : N) (out : res unit) : bool :=
   match normalise_decimals offer ret spread od rd with
@@ -191,23 +186,19 @@ Definition c10_ok (bp ms : option N) (offer ret spread od rd : N) (out : res uni
                     (let e := o * D / bp in (e <=? r) || ((e - r) * D <? (ms + 1) * e)) &&
                     (if (ms + 1 <=? D) && (bp <? o * D)
                      then (o * D - bp) * (D - ms - 1) <? r * D * bp else true)
-          | Err EMaxSpread => negb (o * (D - ms) <=? r * bp)
-          | Err Panic => bp =? 0
-          | Err _ => false
+          | Err _ => negb (o * (D - ms) <=? r * bp) || (bp =? 0)
           end
       | Some ms, None =>
           match out with
           | Ok _ => negb (r + s =? 0) && (s * D <? (ms + 1) * (r + s))
-          | Err EMaxSpread => ms * (r + s) <? s * D
-          | Err Panic => r + s =? 0
-          | Err _ => false
+          | Err _ => (ms * (r + s) <? s * D) || (r + s =? 0)
           end
       end
   end.
 Definition chk_C10_max_spread bp ms offer ret spread od rd (out : res unit) : verdict :=
   V (ures_eqb (assert_max_spread bp ms offer ret spread od rd) out)
     (c10_ok bp ms offer ret spread od rd out) false
-    (match ms, out with Some _, Ok _ => true | Some _, Err EMaxSpread => true | _, _ => false end).
+    (match ms, out with Some _, Ok _ => true | Some _, Err _ => true | _, _ => false end).
 
 (* ------------------------------------------------------------------ *)
 (* compute_offer_amount (C12 reverse), lp_share (C05)                  *)
@@ -236,9 +227,8 @@ Definition c05_share_ok (wl : bool) (min0 min1 T d0 d1 r0 r1 : N) (out : res N) 
       else
         (m * r0 <=? d0 * T) && (m * r1 <=? d1 * T) &&
         ((d0 * T <? (m + 1) * r0) || (d1 * T <? (m + 1) * r1))
-  | Err EStd => (T =? 0) && (negb wl || (d0 <? min0) || (d1 <? min1))
   | Err Panic => true
-  | Err _ => false
+  | Err _ => (T =? 0) && (negb wl || (d0 <? min0) || (d1 <? min1))
   end.
 Definition chk_C05_lp_share (wl : bool) min0 min1 T d0 d1 r0 r1 (out : res N) : verdict :=
   V (nres_eqb (lp_share wl min0 min1 T d0 d1 r0 r1) out)
@@ -317,7 +307,7 @@ Definition chk_C16_reg_lookup (q1 q2 : bytes) (entries : list (bytes * bytes)) (
   let hit := existsb (fun e : bytes * bytes => let '(a, b) := e in same_set q1 q2 a b) entries in
   V (match store_get (pair_key q1 q2) st, out with
      | Some i, Ok j => i =? j
-     | None, Err EStd => true
+     | None, Err _ => true
      | _, _ => false
      end)
     (match out with
@@ -361,18 +351,15 @@ Definition chk_C18_u_fromstr (s : str) (out : res N) : verdict :=
   V (nres_eqb (from_dec_str s) out)
     (match out with
      | Ok n => forallb is_digit s && (denote s =? n)
-     | Err EStd => negb (forallb is_digit s) || (W256 <=? denote s)
-     | Err _ => false end) false (is_ok out).
+     | Err _ => negb (forallb is_digit s) || (W256 <=? denote s) end) false (is_ok out).
 Definition chk_C18_u_tryfrom := chk_C18_u_fromstr.
 Definition chk_C18_d_fromstr (s : str) (out : res N) : verdict :=
   V (nres_eqb (dec_from_str s) out)
     (match out, denote_dec s with
      | Ok v, Some x => x =? v
      | Ok _, None => false
-     | Err EStd, Some x => existsb (fun p => W256 <=? denote p) (split_dot s [])
-     | Err EStd, None => true
-     | Err Panic, Some x => W256 <=? x
-     | Err _, _ => false end) false (is_ok out).
+     | Err _, Some x => existsb (fun p => W256 <=? denote p) (split_dot s []) || (W256 <=? x)
+     | Err _, None => true end) false (is_ok out).
 (* round trips through text and JSON on the real types *)
 Definition chk_C18_u_roundtrip (n : N) (disp : res str) (back : res N) (js : res str) (unjs : res N) : verdict :=
   V (sres_eqb (Ok (render n)) disp && nres_eqb (from_dec_str (render n)) back &&
